@@ -656,6 +656,34 @@ class Repo:
         for a in attrs:
             if not stores.get(a, set()) <= {'__init__'}:
                 ok = False
+        # ... and what the constructor stores is itself a value: a parameter, a constant, a conversion of these, an object of a
+        # class of the same kind -- not a new container / buffer / lock that lives in the attribute and is written through it
+        cache[c.key] = False        # (recursion guard)
+        for k in c.mro():
+            init = k.methods.get('__init__')
+            if init is None:
+                continue
+            for n in ast.walk(init.node):
+                if isinstance(n, ast.Assign) and any(isinstance(t, ast.Attribute) and isinstance(t.value, ast.Name)
+                                                     and init.params and t.value.id == init.params[0] for t in n.targets):
+                    for y in ast.walk(n.value):
+                        if isinstance(y, (ast.List, ast.Dict, ast.Set, ast.ListComp, ast.DictComp, ast.SetComp)):
+                            ok = False
+                        if isinstance(y, ast.Call):
+                            fn_ = ast.unparse(y.func)
+                            last = fn_.split('.')[-1]
+                            if last in ('UID', 'int', 'str', 'bytes', 'tuple', 'frozenset', 'bool', 'float', 'len', 'encode', 'decode',
+                                        'strip', 'rstrip', 'lstrip', 'sum', 'min', 'max'):
+                                continue
+                            try:
+                                r = self.resolve_expr(y.func, k.module) if not isinstance(y.func, ast.Name) else self.resolve_name(y.func.id, k.module)
+                            except Exception:
+                                r = None
+                            if isinstance(r, ClassRef) and self.effectively_immutable(self.cls(r.module, r.name)):
+                                continue
+                            ok = False
+        if any(b.split('.')[-1] in ('local', 'Thread', 'Lock') for b in c.all_ext_bases()):
+            ok = False
         cache[c.key] = ok and bool(attrs)
         return cache[c.key]
 
